@@ -17,9 +17,10 @@ P2 == [src |-> "other", cfg |-> "null"]
 P3 == [src |-> "other2", cfg |-> "deep_v"]
 P4 == [src |-> "short", cfg |-> "lit:alpine"]          \* a plugin whose whole config is a bare scalar
 P5 == [src |-> "other", cfg |-> "lit:x"]
+P6 == [src |-> "short", cfg |-> "nest_map"]            \* a config holding an EMPTY mapping (and an empty-list element) below its top level
 StepEnvs == {Env(TRUE, <<>>), Env(FALSE, <<>>), Env(FALSE, ("A" :> "1")), Env(FALSE, ("A" :> "1") @@ ("C" :> "3"))}
 PluginLists == {Plug(TRUE, <<>>), Plug(FALSE, <<>>), Plug(FALSE, <<P1>>), Plug(FALSE, <<P1, P2>>), Plug(FALSE, <<P3>>),
-                Plug(FALSE, <<P4>>), Plug(FALSE, <<P4, P5>>)}
+                Plug(FALSE, <<P4>>), Plug(FALSE, <<P4, P5>>), Plug(FALSE, <<P6>>)}
 Matrices == {"nil", "empty", "list_ab", "adj_base", "setup_os", "adj_tomb_v", "shadow_a", "dims_empty", "dims_mixed_a"}       \* setup_os: exactly one NAMED dimension
 PEnvs == {<<>>, ("A" :> "pa"), ("A" :> "pa") @@ ("B" :> "pb"), ("B" :> "") }
 Keys == {[pair |-> "K1", alg |-> "EdDSA"], [pair |-> "K1", alg |-> "ES512"], [pair |-> "K1", alg |-> "PS512"], [pair |-> "K1", alg |-> "ES256"]}
@@ -27,7 +28,8 @@ Keys == {[pair |-> "K1", alg |-> "EdDSA"], [pair |-> "K1", alg |-> "ES512"], [pa
 Kinds == { "none",
   \* semantic: content
   "cmd", "cmd_crlf", "cmd_trailing_nl", "env_add", "env_remove", "env_change", "env_rename",
-  "plug_add", "plug_remove", "plug_reorder", "plug_source", "plug_config", "plug_config_deep", "plug_config_scalar", "plug_null_vs_nonempty",
+  "plug_add", "plug_remove", "plug_reorder", "plug_source", "plug_config", "plug_config_deep", "plug_config_scalar", "plug_null_vs_nonempty", "plug_config_nested_null", "plug_config_nested_list", "plug_config_nested_el",
+  "repo_slash", "repo_dotgit", "repo_case",
   "matrix_add", "matrix_remove", "matrix_setup_value", "matrix_adj_with", "matrix_adj_skip", "matrix_adj_extra", "matrix_dim_rename", "matrix_dim_value", "matrix_dim_anon", "matrix_adj_extra_last", "matrix_shadowed_setup", "matrix_empty_dim_rename", "matrix_mixed_dim_value",
   "repo", "penv_value", "penv_removed", "penv_shadowed",
   \* semantic: record and key
@@ -55,6 +57,12 @@ MutContent(o, kind) ==
       [] kind = "plug_config" -> IF Len(o.plugins.l) > 0 /\ o.plugins.l[1].cfg = "kv" THEN [o EXCEPT !.plugins = SetPlugin(o.plugins, 1, [src |-> o.plugins.l[1].src, cfg |-> "kw"])] ELSE NA
       [] kind = "plug_config_deep" -> IF Len(o.plugins.l) > 0 /\ o.plugins.l[1].cfg = "deep_v" THEN [o EXCEPT !.plugins = SetPlugin(o.plugins, 1, [src |-> o.plugins.l[1].src, cfg |-> "deep_w"])] ELSE NA
       [] kind = "plug_config_scalar" -> IF Len(o.plugins.l) > 0 /\ o.plugins.l[1].cfg = "lit:alpine" THEN [o EXCEPT !.plugins = SetPlugin(o.plugins, 1, [src |-> o.plugins.l[1].src, cfg |-> "lit:debian"])] ELSE NA
+      [] kind = "plug_config_nested_null" -> IF Len(o.plugins.l) > 0 /\ o.plugins.l[1].cfg = "nest_map" THEN [o EXCEPT !.plugins = SetPlugin(o.plugins, 1, [src |-> o.plugins.l[1].src, cfg |-> "nest_null"])] ELSE NA
+      [] kind = "plug_config_nested_list" -> IF Len(o.plugins.l) > 0 /\ o.plugins.l[1].cfg = "nest_map" THEN [o EXCEPT !.plugins = SetPlugin(o.plugins, 1, [src |-> o.plugins.l[1].src, cfg |-> "nest_list"])] ELSE NA
+      [] kind = "plug_config_nested_el" -> IF Len(o.plugins.l) > 0 /\ o.plugins.l[1].cfg = "nest_map" THEN [o EXCEPT !.plugins = SetPlugin(o.plugins, 1, [src |-> o.plugins.l[1].src, cfg |-> "nest_el_null"])] ELSE NA
+      [] kind = "repo_slash" -> [o EXCEPT !.repo = "https://example.com/repo.git/"]          \* the repository URL is signed as written: no spelling is "the same"
+      [] kind = "repo_dotgit" -> [o EXCEPT !.repo = "https://example.com/repo"]
+      [] kind = "repo_case" -> [o EXCEPT !.repo = "https://Example.com/repo.git"]
       [] kind = "plug_null_vs_nonempty" -> IF Len(o.plugins.l) = 2 /\ o.plugins.l[2].cfg = "null" THEN [o EXCEPT !.plugins = SetPlugin(o.plugins, 2, [src |-> o.plugins.l[2].src, cfg |-> "bfalse"])] ELSE NA
       [] kind = "matrix_add" -> IF MatrixCanon[o.matrix] = "NONE" THEN [o EXCEPT !.matrix = "list_ab"] ELSE NA
       [] kind = "matrix_remove" -> IF MatrixCanon[o.matrix] # "NONE" THEN [o EXCEPT !.matrix = "nil"] ELSE NA
